@@ -42,6 +42,40 @@ for _p, _w in {
 }.items():
     TEXT[_p] = {"level_text": _hist_text(_w), "level_note": _HIST_NOTE}
 
+
+TEXT["C10"] = {
+ "level_text": "Fault enumeration plus generated content: rapid-generated caches (pods, containers with every persisted field class, policy/config entries) are saved and re-loaded (round trip through a fresh cache object), then the save is repeated under injected faults at every system call of the save path in turn (SIGKILL before/after each open/write/fsync/rename/close via strace -e inject in a re-executed helper process, plus ENOSPC/EIO/EDQUOT write and rename errors and an RLIMIT_FSIZE cut) and the state directory is loaded again: the result must be exactly the old or exactly the new snapshot. Refusal cases (bad permissions, symlink, unknown version, truncated/corrupt file) are generated as well.",
+ "level_note": "Trusted: strace fault injection addresses only the cache file paths (-P); the crash points are the system calls the save path issues on this platform, not power-loss reorderings below the file system. Normalises affinity value order only.",
+}
+TEXT["C11"] = {
+ "level_text": "Fault enumeration over restart points: generated request histories are executed in a helper process that journals the runtime model; the helper is killed at generated request boundaries or in the middle of a request (SIGKILL injected at the cache file rename), a fresh resource manager is started on the surviving state directory and synchronised with the runtime's lists; afterwards nothing unknown to the runtime may be cached, every live container must be cached in its real state, and all invariant libraries of C01-C05/C09 must hold, also after further requests.",
+ "level_note": _HIST_NOTE + " Kills are process kills; the file system is assumed to keep completed writes.",
+}
+TEXT["C13"] = {
+ "level_text": "Generated histories with configuration updates at generated request boundaries, three units per policy: re-delivery of the configuration in effect must leave every observable (runtime view, cache view, advertised zones) unchanged; a rejected update (6-8 generated rejection kinds) is compared by a twin execution without the update (differential, guarded by a determinism self-check of 3+3 runs); after an accepted update every invariant library of C01-C05/C09 must hold under the new configuration on that very step.",
+ "level_note": _HIST_NOTE,
+}
+TEXT["C14"] = {
+ "level_text": "Generated hostile request sequences (unknown/duplicate ids, requests for removed or never-created objects, missing Linux sections, out-of-order lifecycle, malformed annotations and resources) against the real resource manager and against the memory-qos, memtierd and sgx-epc plugins: no handler may panic, every request returns, and a following well-formed request behaves as on a pristine instance.",
+ "level_note": _HIST_NOTE + " Native byte-level fuzzing is not part of the quick tier.",
+}
+TEXT["C15"] = {
+ "level_text": "Generated histories containing concurrent phases (2-5 lifecycle lanes on their own pods, update lanes on distinct existing containers, a configuration update, Synchronize) released at once from separate goroutines on a race-detector build; the detector's reports are read back after every phase (it judges happens-before, so an unserialised access pair is reported whichever order occurred), a watchdog detects deadlock, cache membership must equal the runtime's, every cached decision must have been delivered in a reply of the phase, and all invariant libraries hold after the phase and after each later request. A second unit drives the asynchronous pod-resource fetch through the real cache with generated answer delays and readers.",
+ "level_note": _HIST_NOTE + " The Go scheduler, not the harness, chooses interleavings: schedules are sampled, not enumerated; equality with a particular sequential order is checked through invariants and delivered-decision membership, not by enumerating permutations.",
+}
+TEXT["C17"] = {
+ "level_text": "Generated watch-event histories on the node-specific and group/default streams (adds, modifies, deletes, duplicates, same-generation re-deliveries, other UIDs, invalid and plugin-refused versions): (a) dispatched in order to the agent's update functions as Agent.Start does, 30000 histories per quick run; (b) delivered to the real Agent.Start event loop inside a testing/synctest bubble (harness owns scheduler quiescence and the clock; node watch served through a real client-go clientset over an in-memory transport, configuration watches by in-memory watchers), including concurrent events on both streams, watch expiry/error with re-open after the (virtual) delay, re-delivery after re-open and node group-label changes. Oracle: reference model of what the events say; for concurrent events the set of model states compatible with some processing order.",
+ "level_note": "Trusted: the reference model in overlay/agent, testing/synctest of go1.26.8 (the event-loop unit is built with that toolchain), in-memory apiserver stub. The configuration-file mode (inotify watch) is not exercised.",
+}
+TEXT["C18"] = {
+ "level_text": "Generated annotation maps (all subsets of container-specific/pod-wide/bare forms per key, container names that are prefixes or suffixes of each other or contain separators, annotations for other containers) evaluated repeatedly with the map rebuilt in opposite insertion orders, for the cache's effective-annotation lookup and the memory-qos, memtierd and sgx-epc plugins; oracle is a reference precedence written from the documentation.",
+ "level_note": "Trusted: reference precedence in the overlays. Map iteration orders are sampled, not enumerated.",
+}
+TEXT["C19"] = {
+ "level_text": "Expressions: 20000 (quick) generated (subject, key, operator, values) tuples per run through a real cache pod/container: negation pairs must disagree, Validate()==nil must imply no panic in Evaluate, key values (incl. joint keys with generated separators) and operator results must equal a reference written from the documented table, Expand must substitute references, parsed affinity weights must lie in [-1000,1000]. Balloon types: generated histories on a real balloons resource manager with generated type lists (0-2 expressions and 0-2 namespace globs per type, explicit reserved/default types at generated positions, reserved namespaces, annotations incl. unknown names); every container sitting in a balloon is compared with a reference selector after every request.",
+ "level_note": "Trusted: reference evaluator vfkit/expr.go and reference selector; the undocumented '*' value of Equals/In is not judged by the operator table.",
+}
+
 _ALL = ["C%02d" % i for i in range(1, 21)]
 NOT_APPLICABLE = [
  {"property_id": p, "reason": "check not built yet in this session (planned, see DESIGN.md section 3); not a statement that the technique cannot apply"}
